@@ -2,7 +2,8 @@ package main
 
 // C07, TIME, second part: input FAMILIES on which the scan time of the GenBank reader is NOT
 // proportional to the input (findings K7D … K7H, found with the cost-counting reading of the model,
-// Gts/Lemmas/GbCost.lean, and by measurement; K7D is repaired, F38, its family stays as a regression test).
+// Gts/Lemmas/GbCost.lean, and by measurement; K7D and K7E are repaired — a4b3f5d / F38, 2612fae / F39 — and
+// their families stay as regression tests).
 //
 // Every family is generated in two sizes, n and 4n (input sizes in the ratio 1:4), and judged by the
 // rule of the time oracle above: with t(n) the minimum CPU time (of the scanning thread) of three
@@ -22,6 +23,9 @@ import (
 	"strconv"
 	"strings"
 	"time"
+
+	"github.com/go-gts/gts/seqio"
+	"github.com/go-pars/pars"
 )
 
 type timeFamily struct {
@@ -42,9 +46,11 @@ var c07TimeFamilies = []timeFamily{
 	{"contig-no-colon", "", 1600, func(n int) []byte { // 1600: the repaired scan of 800 lines takes 2 ms, near the 1 ms below which nothing is compared
 		return []byte(famHead + strings.Repeat("CONTIG      join(x\n", n) + famTail)
 	}},
-	// K7E: one quoted qualifier value with n continuation lines: the prefix loop of
-	// quotedQualifierParser runs bytes.Index from the start of the token and copies the tail, once per line
-	{"quoted-continuation-lines", "K7E", 7000, func(n int) []byte {
+	// F39 (was K7E, repaired by 2612fae: finding "" = a super-linear verdict is a plain failure, and the
+	// witness of the fixed entry says "a repaired defect is back"): one quoted qualifier value with n
+	// continuation lines: the prefix loop of quotedQualifierParser ran bytes.Index from the start of the
+	// token and copied the tail, once per line; now one pass over the token
+	{"quoted-continuation-lines", "", 7000, func(n int) []byte {
 		ind := strings.Repeat(" ", 21)
 		return []byte(famHead + famFeat + "     gene            1..2\n" + ind + "/note=\"a\n" +
 			strings.Repeat(ind+"a\n", n) + ind + "a\"\n" + famTail)
@@ -165,6 +171,7 @@ func init() {
 		}
 		return c07FamilyMeasure(f, decInt(a[1])).answer()
 	}
+	extraOps["qual.empty"] = func(a []sexp) string { return qualEmpty(decBytes(a[0])) }
 	extraOps["time.measure"] = func(a []sexp) string {
 		f, ok := c07Family(a[0].atom)
 		if !ok {
@@ -177,6 +184,37 @@ func init() {
 		}
 		return fmt.Sprintf("%s %d bytes %s (%s), %d bytes %s (%s), ratio %.1f, limit %s, rounds %d", x.answer(),
 			x.nSmall, x.t1, x.v1, x.nLarge, x.t4, x.v4, ratio, x.limit, x.rounds)
+	}
+}
+
+// qualEmpty: the exported seqio.QualifierParser("") on `/note="<value>"` (guarded: before 2612fae the
+// loop of quotedQualifierParser did not end when the value held a line feed).  Since the repair the
+// loop is one counted pass and the value comes back as it is (Gts.C07.stripCont_empty_prefix).
+func qualEmpty(value []byte) string {
+	return guarded(func() string {
+		in := append(append([]byte("/note=\""), value...), '"', '\n')
+		state := pars.FromBytes(in)
+		res, err := seqio.QualifierParser("").Parse(state)
+		if err != nil {
+			return "ERR"
+		}
+		q := res.Value.(seqio.QualifierIO)
+		return encBytes([]byte(q[1]))
+	})
+}
+
+func (c *c07Ctx) quotedEmptyPrefix() {
+	r := c.r
+	for _, v := range []string{"", "a", "\n", "a\nb", "a\n\nb\n", "\n\n\n", "ab\n                     cd\n", strings.Repeat("x\n", 500)} {
+		line := "qual.empty " + encBytes([]byte(v))
+		crumb(line)
+		got := qualEmpty([]byte(v))
+		r.count("qualifier/empty-prefix/" + map[bool]string{true: "same", false: "other"}[got == encBytes([]byte(v))])
+		r.eval("qual.empty|"+v, true)
+		if got != encBytes([]byte(v)) {
+			r.fail(Failure{Oracle: "QualifierParser(\"\") returns a quoted value as it is and never hangs (empty continuation prefix)",
+				Op: line, Got: got, Want: encBytes([]byte(v))})
+		}
 	}
 }
 
